@@ -144,7 +144,7 @@ impl<'a> ScriptGen<'a> {
                 let msg = match rng.below(6) {
                     0 | 1 => Msg::Bank { to: rng.pick(&self.pool_addrs()).clone(), amount: vec![Coin::new(rng.below(4) as u128, "ucoin")] },
                     2 | 3 => Msg::Custom { tag: format!("t{}", self.nonce()) },
-                    _ => Msg::Other { which: rng.below(5) as u8 },
+                    _ => Msg::Other { which: rng.below(6) as u8 },
                 };
                 let reply = self.reply_req(rng, owner_cid, depth);
                 let gas_limit = if rng.chance(1, 2) { Some(rng.below(1_000_000)) } else { None };
